@@ -149,8 +149,11 @@ TEXT = {
           "histories on a real node (ledger stream); model-free monitors scan send-hash -> receiving blocks and the FIFO "
           "order on the real stores.",
   "design_ref": "§3 C04",
-  "note": "Theorems are about the current chain of one node (T1-T4, N1); reorg/pool-replacement/restart stability (T5) is "
-          "exercised by the stream only. Hash freshness is a hypothesis of reachability. Below "
+  "note": "T1-T4, N1 are about the current chain; T5 (reorganisation, replacement of unconfirmed blocks, restart) are theorems "
+          "of Props/C04Node over the node model LedgerNode (momentum version stack, pool, stored inbox counters refined to the "
+          "list view), tied by the ledger-node stream (one real node driven through put / momentum / rollback / restart, every "
+          "store read compared, model-free monitors); the model re-verifies where Go re-applies stored patches - the "
+          "equivalence is compared by the stream, not proved. Hash freshness is a hypothesis of reachability. Below "
           "ReceiverMismatchEnforcementHeight T2/T3 are false of the code (known finding F8). Database read faults are not "
           "injected: that a failing read of the received mark / inbox position is not answered like an absent key is a "
           "regenerated AST fact (reviewed list of all reads of chain/account with their error handling).",
